@@ -2,21 +2,22 @@
 import re
 
 from .. import lib, lib_gs2, mir
+from ..lib_gs2 import Canon, rel_pred, var_pred, bool_pred, result_edges
 from ..mir import render, strip_generics
 
-EXPLANATION = ("Every call that can grow a PeerDetails.topics set (workspace-wide in libp2p_gossipsub) is a BTreeSet::insert whose argument is "
-               "the topic of an element of the iteration over the Ok result of TopicSubscriptionFilter::filter_incoming_subscriptions, called "
-               "with that same peer's current topic set; the set is never assigned, extended or borrowed mutably by anything else, and new "
-               "PeerDetails start with an empty set. In both call sites (handle_received_subscriptions, handle_graft) every state-changing "
-               "call is dominated by the Ok edge of the filter and nothing but logging is reachable from its Err edge (a rejected request "
-               "changes nothing); inserts happen only for Subscribe elements, removals only for Unsubscribe elements (so the size bound the "
-               "filter computed is the size reached). MaxCountSubscriptionFilter: the inner filter runs only when "
-               "subscriptions.len() <= max_subscriptions_per_request (raw request length), Ok is returned only when "
-               "new_subscribed + current.len() <= max_subscribed_topics + unsubscribed, the two counters are unit-incremented from 0 exactly "
-               "for (Subscribe, not yet contained) resp. (Unsubscribe, contained) elements of the inner filter's result, the value returned "
-               "is that result, inner errors propagate. Default trait methods: the dedup map only ever holds elements of the request keyed "
-               "by their own topic, the retain closure keeps an element only if allow_incoming_subscription (= can_subscribe(topic)) holds; "
-               "Whitelist = set membership; Combined = both filters (can_subscribe and the chained set filter).")
+EXPLANATION = ("Every call that can grow a peer's topic set (the BTreeSet<TopicHash> field of PeerDetails; workspace-wide in "
+               "libp2p_gossipsub) is a BTreeSet::insert whose argument is the topic of an element of the iteration over the Ok result of "
+               "TopicSubscriptionFilter::filter_incoming_subscriptions, called with that same peer's current topic set; the set is never "
+               "assigned, extended or borrowed mutably by anything else, and new PeerDetails start with an empty set. In both call sites "
+               "(handle_received_subscriptions, handle_graft) every state-changing call is dominated by the Ok edge of the filter and nothing "
+               "but logging is reachable from its Err edge (a rejected request changes nothing); inserts happen only for Subscribe elements, "
+               "removals only for Unsubscribe elements. MaxCountSubscriptionFilter: the inner filter runs only when the raw request length is "
+               "<= max_subscriptions_per_request, Ok is returned only when new + current.len() <= max_subscribed_topics + unsubscribed, the "
+               "two counters are unit-incremented from 0 exactly for (Subscribe, not yet contained) resp. (Unsubscribe, contained) elements "
+               "of the inner filter's result, the value returned is that result (`?` or match), inner errors propagate. Default trait "
+               "methods: the dedup map only ever holds elements of the request keyed by their own topic, the retain closure keeps an element "
+               "only if allow_incoming_subscription (= can_subscribe(topic)) holds; Whitelist = set membership; Combined = both filters. "
+               "Parameters are matched by position, locals by role, results of calls by value flow.")
 ASSUMPTIONS = ["user supplied filters (Callback, Regex, custom impls) are trusted to be what the user wants",
                "the filter is consulted with the peer's topic set as it is at that moment; interleavings with other events are sequential (single &mut self)",
                "BTreeSet / HashSet / HashMap semantics"]
@@ -26,60 +27,49 @@ SF = r"subscription_filter::TopicSubscriptionFilter::filter_incoming_subscriptio
 SELFTEST = [
     {"mutation": "original F9: handle_graft inserts the raw GRAFT topics (`for topic in &topics { connected_peer.topics.insert(topic.clone()) }`)", "caught_by": "topic-set/handle_graft: inserted topic comes from the subscription filter's output"},
     {"mutation": "handle_received_subscriptions: iterate `subscriptions` instead of `filtered_topics`", "caught_by": "topic-set/handle_received_subscriptions: inserted topic comes from the subscription filter's output"},
-    {"mutation": "handle_received_subscriptions: filter Err arm falls through (`Err(_) => HashSet::new()` after clearing peer.topics)", "caught_by": "no-effect/handle_received_subscriptions: rejected request changes nothing"},
+    {"mutation": "handle_received_subscriptions: filter Err arm clears peer.topics before returning", "caught_by": "no-effect/handle_received_subscriptions: rejected request changes nothing"},
     {"mutation": "MaxCount: `subscriptions.len() > self.max_subscriptions_per_request` test moved after the inner filter call", "caught_by": "max-count/inner filter runs only for a request within max_subscriptions_per_request"},
-    {"mutation": "MaxCount: `new_subscribed + current.len() > max + unsubscribed` -> `new_subscribed > max + unsubscribed`", "caught_by": "max-count/Ok only if new + current <= max + unsubscribed"},
-    {"mutation": "MaxCount: `if !currently_contained { new_subscribed += 1 }` -> `if currently_contained {..}`", "caught_by": "max-count/new_subscribed counts exactly (Subscribe, not contained)"},
-    {"mutation": "MaxCount: `unsubscribed += 1` -> `+= 2`", "caught_by": "max-count/unsubscribed starts at 0 and only ever +1"},
+    {"mutation": "MaxCount: `new_subscribed + current.len() > max + unsubscribed` -> `new_subscribed > max + unsubscribed`", "caught_by": "max-count/floor:total comparison"},
+    {"mutation": "MaxCount: `if !currently_contained { new_subscribed += 1 }` -> `if currently_contained {..}`", "caught_by": "max-count/new counter counts exactly (Subscribe, not contained)"},
+    {"mutation": "MaxCount: `unsubscribed += 1` -> `+= 2`", "caught_by": "max-count/unsubscribed counter starts at 0 and only ever +1"},
     {"mutation": "default filter_incoming_subscription_set: retain closure returns true on the not-allowed branch", "caught_by": "default-filter/an element is kept only if allow_incoming_subscription holds"},
     {"mutation": "Combined::can_subscribe: `&&` -> `||`", "caught_by": "combined/can_subscribe requires both filters"},
     {"mutation": "Whitelist::can_subscribe: `!self.0.contains(..)`", "caught_by": "whitelist/can_subscribe = membership in the whitelist"},
     {"mutation": "on_connection_established builds PeerDetails with a pre-filled topic set", "caught_by": "topic-set/a new peer starts with an empty topic set"},
+    {"mutation": "neutral/gs/03 (`?` -> match in MaxCount), 07 (mirrored comparisons)", "caught_by": "(silent, as required)"},
 ]
-
 MUT = r"::(insert|extend|append|push|push_back|remove|retain|clear|take|replace|swap|entry|get_mut|pop_first|pop_last|split_off|drain|insert_\w+)$"
 GROW = r"::(insert|extend|append|push|push_back|replace|swap|entry|insert_\w+)$"
+NEXT = r"<[^()]*? as std::iter::Iterator>::next\(it\)@Some\.0"
 
 
-def is_peer_topics(e):
-    """Expression is the place `<PeerDetails>.topics`."""
-    return e[0] == "field" and e[2] == "topics" and re.search(r"types::PeerDetails", e[3] or "") is not None
+def loop_of(body, bb):
+    """innermost enclosing `for` of block bb: (switch bb, iterator local, block of the next() call)"""
+    best = None
+    for text, labels, sw, cond in body.guards_on_all_paths(bb):
+        if labels == frozenset({"Some"}) and cond[0] == "discr" and cond[1][0] == "call" and re.search(r"iter::Iterator>::next$", strip_generics(cond[1][1])) and cond[1][2] and cond[1][2][0][0] == "local":
+            if best is None or len(body.dominators().get(sw, ())) > len(body.dominators().get(best[0], ())):
+                best = (sw, cond[1][2][0][1], cond[1][3])
+    return best
 
 
-def ret_exprs(b):
-    out = []
-    for x in b.defs[0]:
-        s = mir.Site(b, x[1], x[2])
-        out.append((s, render(b.call_expr(x[3], x[1])) if x[0] == "call" else render(b.rvalue_expr(x[3]))))
-    return out
-
-
-def filter_origin(body, e):
-    """Does expression e (the inserted topic) derive from an element of the iteration over the result of a
-    filter_incoming_subscriptions call?  Returns the block of that call or None."""
-    for s in mir.walk(e):
-        if s[0] == "local":
-            init = body.init_expr(s[1])
-            for c in mir.walk(init):
-                if c[0] == "call" and re.search(SF, strip_generics(c[1])):
-                    return c[3]
-    return None
-
-
-def effect_sites(body):
-    """State-changing calls of a behaviour method: mutators of collections reachable from self / a peer entry, and calls to other
-    Behaviour methods / mesh helpers; logging and formatting (macro-expanded) calls are not effects."""
+def effect_sites(cx):
+    """State-changing calls of a behaviour method: mutators of collections reachable from self, and calls to other Behaviour methods /
+    mesh helpers / score / metrics; logging and formatting (macro-expanded) calls are not effects."""
+    body = cx.b
     out = []
     for s in body.call_sites():
         t = s.term
-        if t.get("x", "").startswith("m:"):
+        if t.get("x", "").startswith("m:") or "tracing" in t.get("xs", ""):
             continue
         n = strip_generics(body.call_name(t))
-        e = body.site_expr(s)
-        a0 = render(e[2][0]) if e[2] else ""
+        if lib_gs2.TRANSPARENT.search(n):
+            continue
+        a = cx.args(s)
+        a0 = render(a[0]) if a else ""
         if re.search(r"behaviour::Behaviour::\w+$|behaviour::peer_added_to_mesh$|behaviour::peer_removed_from_mesh$|peer_score::PeerScore::\w+$|partial_messages::\w+::\w+$|metrics::Metrics::\w+$", n) and not re.search(r"::(below_threshold|score_report|get_\w+|is_\w+|contains\w*)$", n):
             out.append(s)
-        elif re.search(MUT, n) and re.search(r"^self\.|connected_peers|\.topics$|^peers$|self\.mesh", a0) and not re.search(r"^std::collections::HashMap::get_mut\(self\.(connected_peers|mesh), \w+\)$", render(e)):
+        elif re.search(MUT, n) and re.search(r"\$1\.", a0) and not (re.search(r"HashMap::get_mut$", n) and re.match(r"^\$1\.\w+$", a0)):
             out.append(s)
     return out
 
@@ -87,30 +77,37 @@ def effect_sites(body):
 def check(ctx):
     prog = ctx.prog
     bodies = list(prog.bodies(G))
+    pd = prog.adt(G, r"types::PeerDetails$")
+    tf = [f["n"] for f in pd["variants"][0]["fields"] if re.search(r"BTreeSet<.*TopicHash>", f["ty"])]
+    ctx.ob("topic-set", "floor:PeerDetails has one topic set", len(tf) == 1, msg=str(tf), nontrivial=False)
+    TOPICS = tf[0] if tf else "topics"
+
+    def is_peer_topics(e):
+        return e[0] == "field" and e[2] == TOPICS and re.search(r"types::PeerDetails", e[3] or "") is not None
     # ======================================================================================= who can change a peer's topic set
-    sites = []          # (body, site, callee, is_grow)
+    sites = []
     for b in bodies:
+        cb = None
         for s in b.call_sites():
-            e = b.site_expr(s)
-            if not e[2]:
-                continue
             n = strip_generics(b.call_name(s.term))
-            for i, a in enumerate(e[2]):
-                if is_peer_topics(a) and re.search(MUT, n):
-                    sites.append((b, s, n, re.search(GROW, n) is not None, i))
-    grow = [x for x in sites if x[3]]
+            if not re.search(MUT, n):
+                continue
+            cb = cb or Canon(prog, b)
+            for i, a in enumerate(cb.args(s)):
+                if is_peer_topics(a):
+                    sites.append((b, cb, s, n, re.search(GROW, n) is not None, i))
+    grow = [x for x in sites if x[4]]
     ctx.floor("topic-set", "calls that can grow a peer's topic set", grow, 1)
     allowed_callees = {"std::collections::BTreeSet::insert", "std::collections::BTreeSet::remove"}
-    other = sorted({n for _, _, n, _, _ in sites} - allowed_callees)
-    ctx.ob("topic-set", "a peer's topic set is only changed by insert / remove", not other, sites[0][1].loc() if sites else "", "other mutators applied to PeerDetails.topics: %s" % other)
-    whole = [(b, s) for b in bodies for s in b.field_write_sites("topics", r"types::PeerDetails")]
-    ctx.ob("topic-set", "a peer's topic set is never assigned as a whole", not whole, whole[0][1].loc() if whole else "", "%d assignment(s) to PeerDetails.topics" % len(whole))
-    # &mut borrows of the set that escape into other calls (mem::take, helper fns ...)
+    other = sorted({x[3] for x in sites} - allowed_callees)
+    ctx.ob("topic-set", "a peer's topic set is only changed by insert / remove", not other, sites[0][2].loc() if sites else "", "other mutators applied to a peer's topic set: %s" % other)
+    whole = [(b, s) for b in bodies for s in b.field_write_sites(TOPICS, r"types::PeerDetails")]
+    ctx.ob("topic-set", "a peer's topic set is never assigned as a whole", not whole, whole[0][1].loc() if whole else "", "%d assignment(s)" % len(whole))
     esc = []
     for b in bodies:
-        for s in lib.field_mut_calls(b, "topics"):
+        for s in lib.field_mut_calls(b, TOPICS):
             e = b.site_expr(s)
-            if any(is_peer_topics(a) for a in e[2]):
+            if any(x[0] == "field" and x[2] == TOPICS and re.search(r"types::PeerDetails", x[3] or "") for a in e[2] for x in mir.walk(a)):
                 n = strip_generics(b.call_name(s.term))
                 if n not in allowed_callees:
                     esc.append((b, s, n))
@@ -118,53 +115,62 @@ def check(ctx):
     aggs = [(b, s) for b in bodies for s in b.agg_sites(r"types::PeerDetails$") if "Clone>::clone" not in b.npath]
     ctx.floor("topic-set", "PeerDetails constructions", aggs, 1)
     for b, s in aggs:
-        f = dict((k, render(x)) for k, x in b.site_expr(s)[4])
-        ctx.ob("topic-set", "a new peer starts with an empty topic set", re.match(r"^(std::default::Default::default\(\)|<std::collections::BTreeSet as std::default::Default>::default\(\)|std::collections::BTreeSet::new\(\))$", f.get("topics", "")) is not None, s.loc(), "%s: topics = %s" % (b.short[-40:], f.get("topics")))
+        f = dict((k, render(x)) for k, x in Canon(prog, b).site(s)[4])
+        ctx.ob("topic-set", "a new peer starts with an empty topic set", re.match(r"^(std::default::Default::default\(\)|<std::collections::BTreeSet as std::default::Default>::default\(\)|std::collections::BTreeSet::new\(\))$", f.get(TOPICS, "")) is not None, s.loc(), "%s: topics = %s" % (b.short[-40:], f.get(TOPICS)))
     seen_fn = {}
-    for b, s, n, _, idx in grow:
+    for b, cb, s, n, _, idx in grow:
         fn = b.npath.split("::")[-1]
         seen_fn[fn] = seen_fn.get(fn, 0) + 1
         tag = fn if seen_fn[fn] == 1 else "%s#%d" % (fn, seen_fn[fn])
-        e = b.site_expr(s)
-        if not n.endswith("BTreeSet::insert") or idx != 0 or len(e[2]) != 2:
+        a = cb.args(s)
+        if not n.endswith("BTreeSet::insert") or idx != 0 or len(a) != 2:
             ctx.ob("topic-set", "%s: inserted topic comes from the subscription filter's output" % tag, False, s.loc(), "not an insert(topic) call: %s" % n)
             continue
-        val = e[2][1]
-        fb = filter_origin(b, val)
-        rv = render(val)
-        ok = fb is not None and re.search(r"next\(iter\)@Some\.0(\.\w+)*\.topic_hash\)?$", rv) is not None
+        lp = loop_of(b, s.bb)
+        fb, rv = None, render(a[1])
+        if lp:
+            cl = Canon(prog, b, {lp[1]: "it"})
+            rv = render(cl.args(s)[1])
+            ini = cl.init(lp[1])
+            for c in mir.walk(ini) if ini else []:
+                if c[0] == "call" and re.search(SF, strip_generics(c[1])):
+                    fb = c[3]
+            # the iterated collection must be the Ok value of the filter, nothing else mixed in
+            if fb is not None and not re.match(r"^<[^()]*>::into_iter\(.*filter_incoming_subscriptions\(.*\)@Ok\.0\)$|^.*::iter\(.*filter_incoming_subscriptions\(.*\)@Ok\.0\)$", render(ini)):
+                fb = None
+        ok = fb is not None and re.match(r"^%s(\.\w+)*\.topic_hash$" % NEXT, rv) is not None
         ctx.ob("topic-set", "%s: inserted topic comes from the subscription filter's output" % tag, ok, s.loc(),
                "topic = %s, element of the iteration over filter_incoming_subscriptions(..)" % rv[-70:] if ok else
                "the inserted topic `%s` does not originate from the result of filter_incoming_subscriptions: the peer can make us track topics the filter does not allow / beyond its limits" % rv[-90:])
         if fb is None:
             continue
         fsite = mir.Site(b, fb)
-        okedge = lib.switch_edges_on_site(b, fsite, {"Ok"}, r"^discr\(")
+        okedge, _ = result_edges(cb, fb)
         ctx.ob("topic-set", "%s: insert only when the filter accepted the request" % tag, bool(okedge) and b.must_pass_edges(s.bb, okedge), s.loc(), "insert dominated by the Ok edge of the filter")
-        fa = b.site_expr(fsite)[2]
-        same_set = len(fa) == 3 and render(fa[2]) == render(e[2][0])
-        ctx.ob("topic-set", "%s: the filter saw the topic set that is being extended" % tag, same_set, fsite.loc(), "filter's currently_subscribed_topics = %s ; insert target = %s" % (render(fa[2])[-60:] if len(fa) == 3 else "?", render(e[2][0])[-60:]))
-        ctx.ob("topic-set", "%s: the filter is the behaviour's configured filter" % tag, len(fa) == 3 and render(fa[0]) == "self.subscription_filter", fsite.loc(), render(fa[0]) if fa else "")
-        # insert only for Subscribe elements (if the element's action is dispatched at all, the insert must sit in the Subscribe arm)
-        acts = [(t, ls) for t, ls, _, c in b.guards_on_all_paths(s.bb) if re.search(r"^discr\(.*next\(iter\)@Some\.0(\.\w+)*\.action\)$", t)]
+        fa = cb.args(fsite)
+        same_set = len(fa) == 3 and render(fa[2]) == render(a[0])
+        ctx.ob("topic-set", "%s: the filter saw the topic set that is being extended" % tag, same_set, fsite.loc(), "filter's currently_subscribed_topics = %s ; insert target = %s" % (render(fa[2])[-60:] if len(fa) == 3 else "?", render(a[0])[-60:]))
+        ctx.ob("topic-set", "%s: the filter is the behaviour's configured filter" % tag, len(fa) == 3 and re.match(r"^\$1\.\w+$", render(fa[0])) is not None, fsite.loc(), render(fa[0]) if fa else "")
         if fn == "handle_received_subscriptions":
-            ctx.ob("topic-set", "%s: insert only for Subscribe elements" % tag, len(acts) == 1 and acts[0][1] == frozenset({"Subscribe"}), s.loc(), str([(t[-40:], sorted(l)) for t, l in acts]))
-    # removal sits in the Unsubscribe arm (so that the size the filter computed is the size reached)
-    for b, s, n, g, idx in sites:
+            acts = [at for at in cl.guards(s.bb) if at[0] == "var" and re.match(r"^%s(\.\w+)*\.action$" % NEXT, at[1])]
+            ctx.ob("topic-set", "%s: insert only for Subscribe elements" % tag, len(acts) >= 1 and all(at[2] == frozenset({"Subscribe"}) for at in acts), s.loc(), str([(at[1][-30:], sorted(at[2])) for at in acts]))
+    for b, cb, s, n, g, idx in sites:
         if n.endswith("BTreeSet::remove") and b.npath.endswith("handle_received_subscriptions"):
-            acts = [(t, ls) for t, ls, _, c in b.guards_on_all_paths(s.bb) if re.search(r"^discr\(.*next\(iter\)@Some\.0(\.\w+)*\.action\)$", t)]
-            ctx.ob("topic-set", "handle_received_subscriptions: removal only for Unsubscribe elements", len(acts) == 1 and acts[0][1] == frozenset({"Unsubscribe"}), s.loc(), str([(t[-40:], sorted(l)) for t, l in acts]))
+            lp = loop_of(b, s.bb)
+            cl = Canon(prog, b, {lp[1]: "it"}) if lp else cb
+            acts = [at for at in cl.guards(s.bb) if at[0] == "var" and re.match(r"^%s(\.\w+)*\.action$" % NEXT, at[1])]
+            ctx.ob("topic-set", "handle_received_subscriptions: removal only for Unsubscribe elements", len(acts) >= 1 and all(at[2] == frozenset({"Unsubscribe"}) for at in acts), s.loc(), str([(at[1][-30:], sorted(at[2])) for at in acts]))
     # ======================================================================================= rejected request changes nothing
     fcalls = [s for s in prog.callers(G, SF) if re.search(r"behaviour::Behaviour::", s.body.npath)]
     ctx.floor("no-effect", "behaviour call sites of filter_incoming_subscriptions", fcalls, 1)
     for fs in fcalls:
         b = fs.body
+        cb = Canon(prog, b)
         fn = b.npath.split("::")[-1]
-        eff = effect_sites(b)
+        eff = effect_sites(cb)
         ctx.ob("no-effect", "floor:%s has state-changing calls" % fn, len(eff) >= 5, nontrivial=False, msg="%d effect sites" % len(eff))
-        okedge = lib.switch_edges_on_site(b, fs, {"Ok"}, r"^discr\(")
-        erredge = lib.switch_edges_on_site(b, fs, {"Err"}, r"^discr\(")
-        ctx.ob("no-effect", "floor:%s filter result is matched" % fn, len(okedge) == 1 and len(erredge) == 1, nontrivial=False)
+        okedge, erredge = result_edges(cb, fs.bb)
+        ctx.ob("no-effect", "floor:%s filter result is matched" % fn, bool(okedge) and bool(erredge), nontrivial=False)
         r = b.reachable([t for _, t in erredge])
         bad = [s for s in eff if s.bb in r]
         ctx.ob("no-effect", "%s: rejected request changes nothing" % fn, not bad and bool(erredge), bad[0].loc() if bad else fs.loc(),
@@ -172,157 +178,197 @@ def check(ctx):
         pre = [s for s in eff if not b.must_pass_edges(s.bb, okedge)]
         ctx.ob("no-effect", "%s: nothing is changed before the filter accepted" % fn, not pre, pre[0].loc() if pre else fs.loc(),
                "every state-changing call is dominated by the filter's Ok edge" if not pre else "state-changing call not dominated by the Ok edge: %s" % strip_generics(b.call_name(pre[0].term)))
-    # subscriptions synthesised inside the behaviour (GRAFT implies SUBSCRIBE) must be Subscribe actions for the grafted topics
-    for fs in fcalls:
-        b = fs.body
-        a1 = b.site_expr(fs)[2][1]
-        if render(a1) == "subscriptions" and b.npath.endswith("handle_received_subscriptions"):
-            continue
-        fn = b.npath.split("::")[-1]
-        cls = [prog.closure_body(b, x[1]) for x in mir.walk(a1) if x[0] == "closure"]
-        built = [(c, s) for c in cls for s in c.agg_sites(r"types::Subscription$")]
-        ok = len(built) == 1
-        det = ""
-        if ok:
-            c, s = built[0]
-            f = dict((k, render(x)) for k, x in c.site_expr(s)[4])
-            det = "action=%s topic_hash=%s" % (f.get("action", "")[-30:], f.get("topic_hash", "")[-40:])
-            ok = f.get("action") == "libp2p_gossipsub::types::SubscriptionAction::Subscribe{}" and re.match(r"^libp2p_gossipsub::<topic::TopicHash as std::clone::Clone>::clone\((topic|arg\d+|\w+)\)$", f.get("topic_hash", "")) is not None
-        ctx.ob("topic-set", "%s: implied subscriptions are Subscribe actions for the received topics" % fn, ok and "(topics)" in render(a1), fs.loc(), det or render(a1)[:120])
-    hr = ctx.body(G, r"^libp2p_gossipsub::behaviour::Behaviour::handle_received_subscriptions$")
-    for fs in [s for s in fcalls if s.body is hr]:
-        a = [render(x) for x in hr.site_expr(fs)[2]]
-        ctx.ob("no-effect", "handle_received_subscriptions filters the received request against the sender's topic set",
-               len(a) == 3 and a[1] == "subscriptions" and a[2] == "std::collections::HashMap::get_mut(self.connected_peers, propagation_source)@Some.0.topics", fs.loc(), str(a[1:])[:200])
+        a = cb.args(fs)
+        if fn == "handle_received_subscriptions":
+            ctx.ob("no-effect", "handle_received_subscriptions filters the received request against the sender's topic set",
+                   len(a) == 3 and render(a[1]) == "$2" and re.match(r"^std::collections::HashMap::get_mut\(\$1\.\w+, \$3\)@Some\.0\.%s$" % TOPICS, render(a[2])) is not None, fs.loc(), str([render(x) for x in a[1:]])[:200])
+        elif len(a) == 3 and render(a[1]) != "$2":
+            # subscriptions synthesised inside the behaviour (GRAFT implies SUBSCRIBE) must be Subscribe actions for the received topics
+            raw1 = b.site_expr(fs)[2][1]
+            raw_src = [raw1] + [b.init_expr(l) for l in lib_gs2.locals_in(raw1)]
+            cls = [c for x in raw_src for c in cb.closures_in(x)]
+            built = [(c, s) for c in cls for s in c.b.agg_sites(r"types::Subscription$")]
+            ok, det = len(built) == 1, ""
+            if ok:
+                c, s = built[0]
+                f = dict((k, render(x)) for k, x in c.site(s)[4])
+                det = "action=%s topic_hash=%s" % (f.get("action", "")[-30:], f.get("topic_hash", "")[-40:])
+                ok = f.get("action") == "libp2p_gossipsub::types::SubscriptionAction::Subscribe{}" and re.match(r"^c+\$\d+$", f.get("topic_hash", "")) is not None
+            src_txt = " ".join(render(cb.x(x)) for x in raw_src)
+            ctx.ob("topic-set", "%s: implied subscriptions are Subscribe actions for the received topics" % fn, ok and re.search(r"iter\(\$\d+\)", src_txt) is not None, fs.loc(), det or src_txt[:120])
     # ======================================================================================= MaxCountSubscriptionFilter
     m = ctx.body(G, r"subscription_filter::MaxCountSubscriptionFilter as subscription_filter::TopicSubscriptionFilter>::filter_incoming_subscriptions$")
+    cm = Canon(prog, m)
     mw = "%s:%d" % (m.file, m.line)
-    facts = lib_gs2.edge_facts(m)
     inner = m.call_sites(SF)
     ctx.floor("max-count", "inner filter call", inner, 1, exact=True)
-    per_req = lib_gs2.le_edges(m, r"^core::slice::len\(subscriptions\)$", r"^self\.max_subscriptions_per_request$", facts)
+    per_req = cm.edges(rel_pred(r"^core::slice::len\(\$2\)$", r"^\$1\.max_subscriptions_per_request$", "Le"))
     ctx.ob("max-count", "floor:per-request comparison", bool(per_req), nontrivial=False, msg=str(sorted(per_req)))
     for s in inner:
-        ok = bool(per_req) and m.must_pass_edges(s.bb, per_req)
+        ok = cm.dominated(s.bb, per_req)
         ctx.ob("max-count", "inner filter runs only for a request within max_subscriptions_per_request", ok, s.loc(),
                "inner filter dominated by subscriptions.len() <= max_subscriptions_per_request" if ok else "the inner (possibly stateful) filter runs before / without the per-request limit")
-        a = [render(x) for x in m.site_expr(s)[2]]
-        ctx.ob("max-count", "inner filter receives the same request and topic set", a == ["self.filter", "subscriptions", "currently_subscribed_topics"], s.loc(), str(a))
-    oks = [s for s, r in ret_exprs(m) if r.startswith("std::result::Result::Ok{")]
+        a = [render(x) for x in cm.args(s)]
+        ctx.ob("max-count", "inner filter receives the same request and topic set", a == ["$1.filter", "$2", "$3"], s.loc(), str(a))
+    oks = [(s, e) for s, e in cm.returns() if e[0] == "agg" and e[3] == "Ok"]
     ctx.floor("max-count", "Ok result", oks, 1, exact=True)
-    RES = r"<std::result::Result as std::ops::Try>::branch\(libp2p_gossipsub::subscription_filter::TopicSubscriptionFilter::filter_incoming_subscriptions\(self\.filter, subscriptions, currently_subscribed_topics\)\)@Continue\.0"
-    LHS = r"^AddWithOverflow\((new_subscribed, std::collections::BTreeSet::len\(currently_subscribed_topics\)|std::collections::BTreeSet::len\(currently_subscribed_topics\), new_subscribed)\)\.0$"
-    RHS = r"^AddWithOverflow\((self\.max_subscribed_topics, unsubscribed|unsubscribed, self\.max_subscribed_topics)\)\.0$"
-    tot = lib_gs2.le_edges(m, LHS, RHS, facts)
-    for s in oks:
-        ctx.ob("max-count", "Ok only if the request is within max_subscriptions_per_request", bool(per_req) and m.must_pass_edges(s.bb, per_req), s.loc(), "Ok dominated by len <= max_subscriptions_per_request")
-        ok = bool(tot) and m.must_pass_edges(s.bb, tot)
+    RES = r"libp2p_gossipsub::subscription_filter::TopicSubscriptionFilter::filter_incoming_subscriptions\(\$1\.filter, \$2, \$3\)@Ok\.0"
+    # the total comparison: (A + current.len()) vs (max_subscribed_topics + U): identify the two counters by their position in it
+    A = U = None
+    for bi in sorted(m.live):
+        sw = cm.switch(bi)
+        cmp_, _ = lib_gs2._as_cmp(sw[0]) if sw else (None, None)
+        if not cmp_:
+            continue
+        for x in (cmp_[1], cmp_[2]):
+            if x[0] == "field" and x[1][0] == "bin" and x[1][1] == "AddWithOverflow":
+                ops = [x[1][2], x[1][3]]
+                rs = [render(o) for o in ops]
+                if "std::collections::BTreeSet::len($3)" in rs:
+                    o = ops[1 - rs.index("std::collections::BTreeSet::len($3)")]
+                    A = o[1] if o[0] == "local" else A
+                if "$1.max_subscribed_topics" in rs:
+                    o = ops[1 - rs.index("$1.max_subscribed_topics")]
+                    U = o[1] if o[0] == "local" else U
+    ctx.ob("max-count", "floor:total comparison", A is not None and U is not None and A != U, mw, "new-counter local %s, unsubscribed-counter local %s in `new + current.len() ? max_subscribed_topics + unsubscribed`" % (A, U), nontrivial=False)
+    if A is None or U is None:
+        return
+    cr = Canon(prog, m, {A: "new", U: "unsub"})
+    LHS = r"^AddWithOverflow\((new, std::collections::BTreeSet::len\(\$3\)|std::collections::BTreeSet::len\(\$3\), new)\)\.0$"
+    RHS = r"^AddWithOverflow\((\$1\.max_subscribed_topics, unsub|unsub, \$1\.max_subscribed_topics)\)\.0$"
+    tot = cr.edges(rel_pred(LHS, RHS, "Le"))
+    for s, e in oks:
+        ctx.ob("max-count", "Ok only if the request is within max_subscriptions_per_request", cm.dominated(s.bb, per_req), s.loc(), "Ok dominated by len <= max_subscriptions_per_request")
+        ok = cr.dominated(s.bb, tot)
         ctx.ob("max-count", "Ok only if new + current <= max + unsubscribed", ok, s.loc(), "Ok dominated by new_subscribed + current.len() <= max_subscribed_topics + unsubscribed" if ok else "no dominating comparison of new_subscribed + current.len() with max_subscribed_topics + unsubscribed")
-        r = render(m.site_expr(s))
+        r = render(e)
         ctx.ob("max-count", "the set returned is the inner filter's result", re.match(r"^std::result::Result::Ok\{0: %s\}$" % RES, r) is not None, s.loc(), r[-120:])
     for s in inner:
-        br = [(bi, t) for bi in m.live for t, ls in (m.switch_info(bi)[1].items() if m.switch_info(bi) else []) if ls == {"Break"} and "filter_incoming_subscriptions(" in render(m.switch_info(bi)[0])]
-        okp = len(br) == 1 and not (set(lib.bbs(oks)) & m.reachable([br[0][1]]))
-        ctx.ob("max-count", "an inner rejection is propagated", okp, s.loc(), "Break edge of `?` cannot reach Ok")
+        _, er = result_edges(cm, s.bb)
+        okp = bool(er)
+        for _, t in er:
+            r = m.reachable([t])
+            okp = okp and not ({o.bb for o, _ in oks} & r) and any(x.bb in r for x, e in cm.returns() if not (e[0] == "agg" and e[3] == "Ok"))
+        ctx.ob("max-count", "an inner rejection is propagated", okp, s.loc(), "the Err edge of the inner result returns an error, never Ok")
     # counters
-    ELEM = r"<std::collections::hash_set::Iter as std::iter::Iterator>::next\(iter\)@Some\.0"
-    CONT = r"^std::collections::BTreeSet::contains\(currently_subscribed_topics, %s\.topic_hash\)$" % ELEM
-    its = [render(m.init_expr(k)) for k, nme in m.names.items() if nme == "iter"]
-    ctx.ob("max-count", "the counters are computed over the inner filter's result", len(its) == 1 and re.search(r"into_iter\(%s\)$" % RES, its[0]) is not None, mw, str(its)[-160:])
-    for cname, arm, contained in (("new_subscribed", "Subscribe", "false"), ("unsubscribed", "Unsubscribe", "true")):
-        l = lib.local_by_name(m, cname)
-        defs = sorted(render(m.rvalue_expr(x[3])) for x in m.defs[l] if x[0] == "stmt")
-        ctx.ob("max-count", "%s starts at 0 and only ever +1" % cname, defs == ["0", "AddWithOverflow(%s, 1).0" % cname], mw, str(defs))
-        incs = [mir.Site(m, x[1], x[2]) for x in m.defs[l] if x[0] == "stmt" and "AddWithOverflow" in render(m.rvalue_expr(x[3]))]
-        for s in incs:
-            gs = m.guards_on_all_paths(s.bb)
-            act = [ls for t, ls, _, c in gs if re.match(r"^discr\(%s\.action\)$" % ELEM, t)]
-            con = [ls for t, ls, _, c in gs if re.match(CONT, t)]
-            ok = act == [frozenset({arm})] and con == [frozenset({contained})]
-            ctx.ob("max-count", "%s counts exactly (%s, %s)" % (cname, arm, "contained" if contained == "true" else "not contained"), ok, s.loc(), "guards: action=%s contained=%s" % ([sorted(x) for x in act], [sorted(x) for x in con]))
-        # and every such element is counted: from the (arm, contained) edge the increment is on every path back to the loop head
-        nx = m.call_sites(r"hash_set::Iter as std::iter::Iterator>::next$")
-        if incs and nx:
-            arm_edges = lib.arm_entry(m, r"^discr\(%s\.action\)$" % ELEM, arm)
-            cont_edges = [(bi, t) for bi, t in m.guard_edges(lambda c, r, lab: lab == contained and re.match(CONT, r) is not None) if any(bi in m.reachable([t2], stop_nodes=[nx[0].bb]) for _, t2 in arm_edges)]
-            got = lib.count_range(m, [t for _, t in cont_edges], [nx[0].bb], lib.bbs(incs)) if cont_edges else None
-            ctx.ob("max-count", "every (%s, %s) element is counted once" % (arm, "contained" if contained == "true" else "not contained"), got == (1, 1), incs[0].loc(), "increments per such element: %s" % (got,))
+    nxs = [s for s in m.call_sites(r"iter::Iterator>::next$")]
+    lp = None
+    for s in nxs:
+        e = m.site_expr(s)
+        if e[2] and e[2][0][0] == "local":
+            ini = cr.init(e[2][0][1])
+            if ini is not None and re.search(RES + r"\)$", render(ini)):
+                lp = (s, e[2][0][1])
+    ctx.ob("max-count", "the counters are computed over the inner filter's result", lp is not None, mw, "loop over %s" % (render(cr.init(lp[1]))[-120:] if lp else "?"))
+    if lp:
+        cl = Canon(prog, m, {A: "new", U: "unsub", lp[1]: "it"})
+        CONT = r"^std::collections::BTreeSet::contains\(\$3, %s\.topic_hash\)$" % NEXT
+        ACT = r"^%s\.action$" % NEXT
+        for cname, l, arm, contained in (("new", A, "Subscribe", False), ("unsubscribed", U, "Unsubscribe", True)):
+            prof = lib_gs2.counter_profile(cm, l)
+            ctx.ob("max-count", "%s counter starts at 0 and only ever +1" % cname, prof == ["0", "AddWithOverflow(#, 1).0"], mw, str(prof))
+            incs = [s for s, r in cm.defs(l) if "AddWithOverflow" in r]
+            for s in incs:
+                gs = cl.guards(s.bb)
+                act = [a[2] for a in gs if a[0] == "var" and re.match(ACT, a[1])]
+                con = [a[2] for a in gs if a[0] == "bool" and re.match(CONT, a[1])]
+                ok = bool(act) and all(x == frozenset({arm}) for x in act) and bool(con) and all(x == contained for x in con)
+                ctx.ob("max-count", "%s counter counts exactly (%s, %s)" % (cname, arm, "contained" if contained else "not contained"), ok, s.loc(), "guards: action=%s contained=%s" % ([sorted(x) for x in act], con))
+            if incs:
+                arm_e = cl.edges(var_pred(ACT, {arm}))
+                cont_e = [(bi, t) for bi, t in cl.edges(bool_pred(CONT, contained)) if any(bi in m.reachable([t2], stop_nodes=[lp[0].bb]) for _, t2 in arm_e)]
+                got = lib.count_range(m, [t for _, t in cont_e], [lp[0].bb], lib.bbs(incs)) if cont_e else None
+                ctx.ob("max-count", "every (%s, %s) element is counted once" % (arm, "contained" if contained else "not contained"), got == (1, 1), incs[0].loc(), "increments per such element: %s" % (got,))
     # ======================================================================================= default trait methods
     d = ctx.body(G, r"^libp2p_gossipsub::subscription_filter::TopicSubscriptionFilter::filter_incoming_subscriptions$")
     dw = "%s:%d" % (d.file, d.line)
-    SUB = r"<std::slice::Iter as std::iter::Iterator>::next\(iter\)@Some\.0"
-    ins = d.call_sites(r"hash_map::VacantEntry::insert$|HashMap::insert$")
+    ins = d.call_sites(r"hash_map::VacantEntry::insert(_entry)?$|HashMap::insert$")
     ctx.floor("default-filter", "dedup insert", ins, 1, exact=True)
-    its = [render(d.init_expr(k)) for k, nme in d.names.items() if nme == "iter"]
-    ctx.ob("default-filter", "dedup iterates the request", len(its) == 1 and its[0].endswith("into_iter(subscriptions)"), dw, str(its))
     for s in ins:
-        a = [render(x) for x in d.site_expr(s)[2]]
-        ok = re.match(r"^std::collections::HashMap::entry\(filtered_subscriptions, libp2p_gossipsub::<topic::TopicHash as std::clone::Clone>::clone\(%s\.topic_hash\)\)@Vacant\.0$" % SUB, a[0]) is not None and re.match("^%s$" % SUB, a[-1]) is not None
-        ctx.ob("default-filter", "the candidate set only holds elements of the request, keyed by their own topic", ok, s.loc(), str(a)[-200:])
-    r0 = [r for _, r in ret_exprs(d)]
-    ctx.ob("default-filter", "the deduplicated set is passed through filter_incoming_subscription_set",
-           len(r0) == 1 and re.match(r"^libp2p_gossipsub::subscription_filter::TopicSubscriptionFilter::filter_incoming_subscription_set\(self, std::iter::Iterator::collect\(std::collections::HashMap::into_values\(filtered_subscriptions\)\), currently_subscribed_topics\)$", r0[0]) is not None, dw, str(r0)[:220])
-    fm = [s for s in d.call_sites(MUT) if render(d.site_expr(s)[2][0]) == "filtered_subscriptions" or "entry(filtered_subscriptions" in render(d.site_expr(s)[2][0])]
-    names = sorted({strip_generics(d.call_name(s.term)).split("::")[-1] for s in fm})
-    ctx.ob("default-filter", "the candidate set is only built by entry / insert / remove", set(names) <= {"entry", "insert", "remove"}, dw, str(names))
+        lp = loop_of(d, s.bb)
+        cd = Canon(prog, d, {lp[1]: "it"} if lp else None)
+        ini = cd.init(lp[1]) if lp else None
+        ctx.ob("default-filter", "dedup iterates the request", ini is not None and re.match(r"^.*(into_iter|iter)\(\$2\)$", render(ini)) is not None, dw, render(ini)[:120] if ini else "")
+        a = cd.args(s)
+        ml = [x for x in mir.walk(a[0]) if x[0] == "local"]
+        if strip_generics(d.call_name(s.term)).endswith("HashMap::insert"):
+            ok = len(a) == 3 and re.match(r"^%s\.topic_hash$" % NEXT, render(a[1])) is not None and re.match("^%s$" % NEXT, render(a[2])) is not None
+        else:
+            ok = len(ml) >= 1 and re.match(r"^std::collections::HashMap::entry\(%s, %s\.topic_hash\)@Vacant\.0$" % (re.escape(render(ml[0])), NEXT), render(a[0])) is not None and re.match("^%s$" % NEXT, render(a[-1])) is not None
+        ctx.ob("default-filter", "the candidate set only holds elements of the request, keyed by their own topic", ok, s.loc(), str([render(x) for x in a])[-200:])
+        if ml:
+            MAP = re.escape(render(ml[0]))
+            r0 = [render(e) for _, e in cd.returns()]
+            ctx.ob("default-filter", "the deduplicated set is passed through filter_incoming_subscription_set",
+                   len(r0) == 1 and re.match(r"^libp2p_gossipsub::subscription_filter::TopicSubscriptionFilter::filter_incoming_subscription_set\(\$1, std::iter::Iterator::collect\(std::collections::HashMap::into_values\(%s\)\), \$3\)$" % MAP, r0[0]) is not None, dw, str(r0)[:220])
+            fm = [strip_generics(d.call_name(x.term)).split("::")[-1] for x in d.call_sites(MUT) if re.search(MAP, render(cd.args(x)[0]))]
+            ctx.ob("default-filter", "the candidate set is only built by entry / insert / remove", set(fm) <= {"entry", "insert", "remove"}, dw, str(sorted(set(fm))))
     st = ctx.body(G, r"^libp2p_gossipsub::subscription_filter::TopicSubscriptionFilter::filter_incoming_subscription_set$")
+    cst = Canon(prog, st)
     rt = st.call_sites(r"HashSet::retain$")
     ctx.floor("default-filter", "retain over the candidate set", rt, 1, exact=True)
-    r0 = [r for _, r in ret_exprs(st)]
-    ctx.ob("default-filter", "the filtered candidate set is what is returned", r0 == ["std::result::Result::Ok{0: subscriptions}"] and bool(rt) and render(st.site_expr(rt[0])[2][0]) == "subscriptions" and st.must_pass_nodes([0], st.return_blocks(), lib.bbs(rt)), "%s:%d" % (st.file, st.line), str(r0))
+    r0 = [render(e) for _, e in cst.returns()]
+    ctx.ob("default-filter", "the filtered candidate set is what is returned", r0 == ["std::result::Result::Ok{0: $2}"] and bool(rt) and render(cst.args(rt[0])[0]) == "$2" and st.must_pass_nodes([0], st.return_blocks(), lib.bbs(rt)), "%s:%d" % (st.file, st.line), str(r0))
+    ALLOW = r"^libp2p_gossipsub::subscription_filter::TopicSubscriptionFilter::allow_incoming_subscription\(\$1, c\$2\)$"
     for s in rt:
-        cl = lib.closure_of(prog, st, st.site_expr(s))
-        if cl is None:
+        cls = cst.closures_in(st.site_expr(s))
+        if not cls:
             ctx.ob("default-filter", "an element is kept only if allow_incoming_subscription holds", False, s.loc(), "retain closure not found")
             continue
-        for x in cl.defs[0]:
-            if x[0] != "stmt":
-                ctx.ob("default-filter", "an element is kept only if allow_incoming_subscription holds", re.search(r"allow_incoming_subscription$", strip_generics(cl.call_name(x[3]))) is not None, "%s:%d" % (cl.file, cl.line), "closure returns a call result")
-                continue
-            r = render(cl.rvalue_expr(x[3]))
-            site = mir.Site(cl, x[1], x[2])
-            if r == "1":
-                ctx.guarded("default-filter", "an element is kept only if allow_incoming_subscription holds", site,
-                            lambda c, rr, l: l == "true" and re.match(r"^libp2p_gossipsub::subscription_filter::TopicSubscriptionFilter::allow_incoming_subscription\(\^\*self, s\)$", rr) is not None, "allow_incoming_subscription(s)")
-            elif r != "0" and "allow_incoming_subscription(^*self, s)" not in r:
-                ctx.ob("default-filter", "an element is kept only if allow_incoming_subscription holds", False, site.loc(), "closure returns %s" % r[:80])
+        cl = cls[0]
+        allow = cl.edges(bool_pred(ALLOW, True))
+        for rs, e in cl.returns():
+            r = render(e)
+            if r == "0" or re.match(ALLOW, r):
+                ok = True
+            elif r == "1":
+                ok = cl.dominated(rs.bb, allow)
+            else:
+                ok = False
+            if r != "0":
+                ctx.ob("default-filter", "an element is kept only if allow_incoming_subscription holds", ok, rs.loc(), "closure returns %s" % r[:100])
     al = ctx.body(G, r"^libp2p_gossipsub::subscription_filter::TopicSubscriptionFilter::allow_incoming_subscription$")
-    r0 = [r for _, r in ret_exprs(al)]
-    ctx.ob("default-filter", "allow_incoming_subscription = can_subscribe(subscription.topic_hash)", r0 == ["libp2p_gossipsub::subscription_filter::TopicSubscriptionFilter::can_subscribe(self, subscription.topic_hash)"], "%s:%d" % (al.file, al.line), str(r0))
+    r0 = [render(e) for _, e in Canon(prog, al).returns()]
+    ctx.ob("default-filter", "allow_incoming_subscription = can_subscribe(subscription.topic_hash)", r0 == ["libp2p_gossipsub::subscription_filter::TopicSubscriptionFilter::can_subscribe($1, $2.topic_hash)"], "%s:%d" % (al.file, al.line), str(r0))
     # ======================================================================================= concrete filters
     wl = ctx.body(G, r"subscription_filter::WhitelistSubscriptionFilter as subscription_filter::TopicSubscriptionFilter>::can_subscribe$")
-    r0 = [r for _, r in ret_exprs(wl)]
-    ctx.ob("whitelist", "can_subscribe = membership in the whitelist", r0 == ["std::collections::HashSet::contains(self.0, topic_hash)"], "%s:%d" % (wl.file, wl.line), str(r0))
+    r0 = [render(e) for _, e in Canon(prog, wl).returns()]
+    ctx.ob("whitelist", "can_subscribe = membership in the whitelist", r0 == ["std::collections::HashSet::contains($1.0, $2)"], "%s:%d" % (wl.file, wl.line), str(r0))
     mc = ctx.body(G, r"subscription_filter::MaxCountSubscriptionFilter as subscription_filter::TopicSubscriptionFilter>::can_subscribe$")
-    r0 = [r for _, r in ret_exprs(mc)]
-    ctx.ob("max-count", "can_subscribe delegates to the wrapped filter", r0 == ["libp2p_gossipsub::subscription_filter::TopicSubscriptionFilter::can_subscribe(self.filter, topic_hash)"], "%s:%d" % (mc.file, mc.line), str(r0))
-    cb = ctx.body(G, r"subscription_filter::CombinedSubscriptionFilters as subscription_filter::TopicSubscriptionFilter>::can_subscribe$")
-    C1 = r"libp2p_gossipsub::subscription_filter::TopicSubscriptionFilter::can_subscribe\(self\.filter1, topic_hash\)"
-    C2 = r"libp2p_gossipsub::subscription_filter::TopicSubscriptionFilter::can_subscribe\(self\.filter2, topic_hash\)"
-    okc = True
-    detail = []
-    for s, r in ret_exprs(cb):
+    r0 = [render(e) for _, e in Canon(prog, mc).returns()]
+    ctx.ob("max-count", "can_subscribe delegates to the wrapped filter", r0 == ["libp2p_gossipsub::subscription_filter::TopicSubscriptionFilter::can_subscribe($1.filter, $2)"], "%s:%d" % (mc.file, mc.line), str(r0))
+    cbb = ctx.body(G, r"subscription_filter::CombinedSubscriptionFilters as subscription_filter::TopicSubscriptionFilter>::can_subscribe$")
+    ccb = Canon(prog, cbb)
+    C1 = r"libp2p_gossipsub::subscription_filter::TopicSubscriptionFilter::can_subscribe\(\$1\.filter1, \$2\)"
+    C2 = r"libp2p_gossipsub::subscription_filter::TopicSubscriptionFilter::can_subscribe\(\$1\.filter2, \$2\)"
+    okc, detail = True, []
+    for s, e in ccb.returns():
+        r = render(e)
         detail.append(r[-60:])
         if r == "0":
             continue
         if re.match("^%s$" % C2, r):
-            okc &= cb.must_pass_edges(s.bb, cb.guard_edges(lambda c, rr, l: l == "true" and re.match("^%s$" % C1, rr) is not None))
+            okc &= ccb.dominated(s.bb, ccb.edges(bool_pred("^%s$" % C1, True)))
         elif re.match("^%s$" % C1, r):
-            okc &= cb.must_pass_edges(s.bb, cb.guard_edges(lambda c, rr, l: l == "true" and re.match("^%s$" % C2, rr) is not None))
+            okc &= ccb.dominated(s.bb, ccb.edges(bool_pred("^%s$" % C2, True)))
+        elif r == "1":
+            okc &= ccb.dominated(s.bb, ccb.edges(bool_pred("^%s$" % C1, True))) and ccb.dominated(s.bb, ccb.edges(bool_pred("^%s$" % C2, True)))
         elif re.match(r"^BitAnd\((%s, %s|%s, %s)\)$" % (C1, C2, C2, C1), r):
             pass
         else:
             okc = False
-    ctx.ob("combined", "can_subscribe requires both filters", okc and len(detail) >= 1, "%s:%d" % (cb.file, cb.line), str(detail))
+    ctx.ob("combined", "can_subscribe requires both filters", okc and len(detail) >= 1, "%s:%d" % (cbb.file, cbb.line), str(detail))
     cs = ctx.body(G, r"subscription_filter::CombinedSubscriptionFilters as subscription_filter::TopicSubscriptionFilter>::filter_incoming_subscription_set$")
-    c1 = [s for s in cs.call_sites(r"TopicSubscriptionFilter::filter_incoming_subscription_set$") if render(cs.site_expr(s)[2][0]) == "self.filter1"]
-    c2 = [s for s in cs.call_sites(r"TopicSubscriptionFilter::filter_incoming_subscription_set$") if render(cs.site_expr(s)[2][0]) == "self.filter2"]
+    ccs = Canon(prog, cs)
+    FS = r"TopicSubscriptionFilter::filter_incoming_subscription_set$"
+    c1 = [s for s in cs.call_sites(FS) if render(ccs.args(s)[0]) == "$1.filter1"]
+    c2 = [s for s in cs.call_sites(FS) if render(ccs.args(s)[0]) == "$1.filter2"]
     okc = len(c1) == 1 and len(c2) == 1
     if okc:
-        a1 = [render(x) for x in cs.site_expr(c1[0])[2]]
-        a2 = cs.site_expr(c2[0])[2]
-        chained = a1[1:] == ["subscriptions", "currently_subscribed_topics"] and any(x[0] == "call" and x[3] == c1[0].bb for x in mir.walk(a2[1])) and "@Continue.0" in render(a2[1])
-        r0 = ret_exprs(cs)
-        final = any(s.bb == c2[0].bb for s, _ in r0)
-        okc = chained and final and cs.must_pass_nodes([0], [c2[0].bb], [c1[0].bb])
+        a1 = [render(x) for x in ccs.args(c1[0])]
+        a2 = ccs.args(c2[0])
+        chained = a1[1:] == ["$2", "$3"] and re.match(r"^.*filter_incoming_subscription_set\(\$1\.filter1, \$2, \$3\)@Ok\.0$", render(a2[1])) is not None and render(a2[2]) == "$3"
+        final = any(e[0] == "call" and e[3] == c2[0].bb for _, e in ccs.returns())
+        ok1, _ = result_edges(ccs, c1[0].bb)
+        okc = chained and final and bool(ok1) and cs.must_pass_edges(c2[0].bb, ok1)
     ctx.ob("combined", "the set filter chains filter1 then filter2 and returns filter2's verdict", okc, "%s:%d" % (cs.file, cs.line), "filter2(filter1(subscriptions)?)")
